@@ -108,6 +108,14 @@ theorem starts_dup_of_gt (B k lo m b : Nat) (hb : b < B) (hm : 0 < m) (hk : m < 
   simp at this
 
 
+/-- **translator tie of the generic rule**: the expression the code evaluates (expander, `arange`
+start, modulus, offset — all regenerated from `utils/ops.py`) is `startsOf` with `lo = 1` for depot
+environments and `lo = 0` otherwise. -/
+theorem genericStartsCode_eq (B k g : Nat) :
+    genericStartsCode true B k g = startsOf B k 1 g ∧ genericStartsCode false B k g = startsOf B k 0 g := by
+  simp [genericStartsCode, startsOf, Params.opsDepotInterleave, Params.opsNoDepotInterleave,
+    Params.opsDepotArangeStart, Params.opsDepotModAdd, Params.opsDepotPlus]
+
 /-! ### the rules of the individual environments -/
 
 /-- every env rule is an instance of `startsOf`, so `starts_row / starts_distinct / starts_in_range /
@@ -196,6 +204,51 @@ theorem smtwtp_starts_in_mask_partial (n B k : Nat) (hB : 0 < B) (hk : k ≤ n) 
   have := startsOf_lt B k 1 0xFFFFFFFF hB s hs
   omega
 
+/-- DPP / MDPP do not override the multi-start functions: generic depot rule with the generator lacking
+`num_loc`, although every cell `0 … n-1` is an action and keep-out / probe cells are masked at reset. -/
+theorem dpp_rule (a l : Nat) :
+    envRule "dpp" 0xFFFFFFFF a l = (1, 0xFFFFFFFF) ∧ envRule "mdpp" 0xFFFFFFFF a l = (1, 0xFFFFFFFF) ∧
+    envGetNumStarts "dpp" a l = a ∧ envGetNumStarts "mdpp" a l = a := by
+  simp [envRule, genericRule, envGetNumStarts, getNumStarts, depotList, Params.opsNoDepotStartEnvs,
+    Params.opsNumStartsDepotEnvs]
+
+/-- claim: with the default number of starts (= number of cells `n`) every forced start is a cell index -/
+def dpp_starts_in_mask_statement : Prop :=
+  ∀ (n B : Nat), 0 < B → n < 0xFFFFFFFF →
+    ∀ s ∈ startsOf B (envGetNumStarts "dpp" n n) (envRule "dpp" 0xFFFFFFFF n n).1 (envRule "dpp" 0xFFFFFFFF n n).2, s < n
+
+/-- 3×3 grid: default `num_starts = 9` forces the cells 1 … 9 — cell 9 does not exist. -/
+theorem dpp_starts_in_mask_counterexample : ¬ dpp_starts_in_mask_statement := by
+  intro h
+  have := h 9 1 (by decide) (by decide) 9 (by decide)
+  omega
+
+/-- **partial**: with fewer starts than cells every forced start is a cell index. -/
+theorem dpp_starts_in_mask_partial (n B k : Nat) (hB : 0 < B) (hk : k + 1 ≤ n) :
+    ∀ s ∈ startsOf B k (envRule "dpp" 0xFFFFFFFF n n).1 (envRule "dpp" 0xFFFFFFFF n n).2, s < n := by
+  rw [(dpp_rule n n).1]
+  intro s hs
+  have := startsOf_lt B k 1 0xFFFFFFFF hB s hs
+  omega
+
+/-- claim: the forced starts are offered by the reset mask whenever `k` offered cells exist -/
+def dpp_starts_offered_statement : Prop :=
+  ∀ (n B k b : Nat) (mask : Nat → Bool), b < B → k ≤ ((List.range n).filter mask).length →
+    ∀ s ∈ instStarts B k b (startsOf B k (envRule "dpp" 0xFFFFFFFF n n).1 (envRule "dpp" 0xFFFFFFFF n n).2), mask s = true
+
+/-- 3×3 grid with keep-out cell 2 (8 offered cells), `k = 3`: cells 1, 2, 3 are forced. -/
+theorem dpp_starts_offered_counterexample : ¬ dpp_starts_offered_statement := by
+  intro h
+  have := h 9 1 3 0 (fun j => j != 2) (by decide) (by decide) 2 (by decide)
+  revert this; decide
+
+/-- **partial**: offered iff the reset mask offers the cells `1 … k` (the generic interface lemma) -/
+theorem dpp_starts_offered_partial (n B k b : Nat) (mask : Nat → Bool) (hb : b < B) (hk : k ≤ 0xFFFFFFFF)
+    (hmask : ∀ a, 1 ≤ a → a < 1 + k → mask a = true) :
+    ∀ s ∈ instStarts B k b (startsOf B k (envRule "dpp" 0xFFFFFFFF n n).1 (envRule "dpp" 0xFFFFFFFF n n).2), mask s = true := by
+  rw [(dpp_rule n n).1]
+  exact starts_feasible_of_mask B k 1 0xFFFFFFFF b hb hk mask hmask
+
 /-- the other depot environments wrap back onto customer 1: with `m = ` number of customers every forced
 start stays within `1..m` for EVERY `k` (so `num_starts`/beam width > `num_loc` repeats feasible customers) -/
 theorem generic_starts_wrap (B k m : Nat) (hm : 0 < m) :
@@ -224,7 +277,7 @@ theorem opPick_eq (n : Nat) (mask : Nat → Bool) (j : Nat) (h1 : 1 ≤ feasCoun
   refine ⟨hlt, ?_⟩
   have hmax : max Params.opsOpClampMin (feasCount n mask) = feasCount n mask := by
     simp only [Params.opsOpClampMin]; omega
-  simp only [opPick, opOrder, Params.opsOpArgsortStable, if_true, hmax]
+  simp only [opPick, opOrder, Params.opsOpArgsortStable, Params.opsOpCountPerInstance, if_true, hmax]
   rw [List.getD_eq_getElem?_getD, List.getElem?_append_left hlt, List.getElem?_eq_getElem hlt]
   rfl
 
